@@ -1,5 +1,198 @@
-"""C19 - Triangles cover their interior and polylines are the union of their segments  (metadata; generators live here and/or in props/C19_*.py parts)"""
-CLAIMED = False   # set True by the owner once ./check C19 passes with real theorems
+"""C19 - Triangles cover their interior and polylines are the union of their segments."""
+from common import *
+import itertools
+
+CLAIMED = True
 LEVEL = 'proof'
-LEVEL_TEXT = 'TODO'
-LEVEL_NOTE = 'TODO'
+LEVEL_TEXT = ('Proof: 21 Coq theorems over the Gallina models of Triangle::points()/bounding_box() (scanline iterator, Scanline::extend, '
+              'bresenham_intersection, sorted_yx, sorted_clockwise, area_doubled as written) and of the Polyline Points iterator (the nth(1) recursion '
+              'step by step). Proved for ALL triangles with coordinates within +-8192: the points do not depend on the vertex order (same list); every '
+              'lattice point of the closed mathematical triangle is yielded (non-zero area; colinear/coincident vertices: exactly the Bresenham line between '
+              'the extreme vertices); every yielded point is in the closed triangle or is a Bresenham pixel of a sorted edge, hence within HALF a pixel of an '
+              'edge segment; the Bresenham lines between the sorted vertices are part of the fill, two triangles on one edge share that line and leave no gap; '
+              'points() is strictly row-major inside the bounding box; for ALL polylines (0, 1 or more vertices, repeats, reversals, any translate): points() = '
+              'first segment line ++ every further segment line without its first point. The 1px-outline clause has no theorem (it runs through the thick-stroke '
+              'code) and is compared exhaustively. Model and code are tied by running both on ALL 117 649 ordered vertex triples of a 7x7 grid and on random inputs, on every run.')
+LEVEL_NOTE = ('Trusted: Coq kernel, extraction, the OCaml/Rust drivers; the hand-written model is validated by differential testing, not proved equal to '
+              'the Rust code. The thin-line lemmas (closed form of Bresenham) are a copy of builder "line"\'s Proofs/Line.v (Proofs/TriLine.v). '
+              'Arithmetic is unbounded Z; theorems carry tri_ok (+-8192), the range in which area_doubled/contains stay inside i32. '
+              'tri_outline_w1 is OPEN (see PARTIAL).')
+RULE = ('correspondence: Triangle::points() / bounding_box() for ALL 117 649 ordered vertex triples of a 7x7 grid (colinear and coincident vertices '
+        'included) + random triples up to +-40 (flat/thin/axis-parallel shares) and small triangles at the range edge +-8192; '
+        'Polyline::points() / bounding_box() (with translate, and translate twice) for ALL vertex lists of length 0..=4 over a 3x3 grid and 0..=6 over 4 points '
+        '(thorough: 0..=4 over 4x4, 5 over 3x3, 6 over 6 points) + random lists of up to 6 vertices with forced repeats and reversals, range edge +-2^20. '
+        'A case is non-trivial when the model result is not empty; distinct = distinct case lines. '
+        'search (implementation only, exact integer reference): every clause of C19: p_tri on ALL vertex triples of the 7x7 grid (each tried in all 6 '
+        'orders: interior coverage by the closed cross-product test, within one pixel by exact squared distance to the edge segments, order independence '
+        'of points() and bounding_box(), sorted-edge lines inside the fill, row-major, no duplicates, inside the box) + random larger ones; p_tri_pair on ALL '
+        'quadruples a<b,c,d of a 4x4 grid (thorough 5x5) as two triangles sharing edge ab (same edge pixels, no gap, no hole along the edge); p_tri_outline on ALL '
+        'ordered triples of a 6x6 grid (thorough 7x7): 1px Styled<Triangle> pixels()/draw() = three lines between clockwise-ordered vertices; p_tri_fill: '
+        'fill-only styled triangle (3 alignments, with/without stroke colour, width 0) = points(); p_poly: 1px Styled<Polyline> pixels()/draw() = segment '
+        'lines with joints once, on the same polyline lists.')
+EXHAUSTIVE = {'quick': True, 'thorough': True}
+ASSUMPTIONS = ['triangle vertex coordinates within +-8192 (tri_ok): the range in which the i32 products of area_doubled()/contains() and the bounding-box '
+               'arithmetic equal the unbounded model; polyline theorems need no range (Points only adds coordinates; the Bresenham error terms fit within +-2^28, C17)']
+TRUSTED = ['modelled, not verified: Iterator::nth(1) = next() twice with early None; Range<i32>::is_empty / RangeInclusive::contains; '
+           'Rectangle::rows() (C16 model); `triangle.is_collapsed()` is never reached for stroke width 0 (scanline_intersections.rs:46)',
+           'Proofs/TriLine.v is a verbatim copy of branch wip-line Proofs/Line.v (closed form of the Bresenham line), compiled and audited here']
+PARTIAL = ['tri_outline_w1 (the 1px outline is the union of the three Bresenham lines between the clockwise-ordered vertices): no theorem, it runs through '
+           'ThickSegment/LineJoin with width 1; compared by p_tri_outline on all ordered triples of a 6x6 (thorough 7x7) grid']
+
+PTS3 = [(x, y) for y in range(3) for x in range(3)]
+PTS4 = [(0, 0), (2, 1), (1, 2), (-1, 3)]     # 4 points in general position (steep, shallow and diagonal segments)
+
+
+def grid_pts(G):
+    return [(x - 1, y - 1) for y in range(G) for x in range(G)]
+
+
+def grid_triples(G):
+    g = grid_pts(G)
+    for a in g:
+        for b in g:
+            for c in g:
+                yield (*a, *b, *c)
+
+
+def grid_multisets(G):
+    """vertex triples of the GxG grid up to order (the suites that use it try all 6 orders themselves)"""
+    g = grid_pts(G)
+    for a, b, c in itertools.combinations_with_replacement(g, 3):
+        yield (*a, *b, *c)
+
+
+def rnd_tri(rng, m=40):
+    k = rng.random()
+    if k < 0.1:
+        # flat / thin / colinear
+        a = (rng.randrange(-m, m + 1), rng.randrange(-m, m + 1))
+        d = (rng.randrange(-6, 7), rng.randrange(-6, 7))
+        s, t = rng.randrange(-5, 6), rng.randrange(-5, 6)
+        b = (a[0] + s * d[0], a[1] + s * d[1])
+        c = (a[0] + t * d[0] + rng.choice([0, 0, 1, -1]), a[1] + t * d[1] + rng.choice([0, 0, 1]))
+        return (*a, *b, *c)
+    if k < 0.2:
+        # one horizontal or vertical edge
+        a = (rng.randrange(-m, m + 1), rng.randrange(-m, m + 1))
+        b = (rng.randrange(-m, m + 1), a[1]) if rng.random() < 0.5 else (a[0], rng.randrange(-m, m + 1))
+        c = (rng.randrange(-m, m + 1), rng.randrange(-m, m + 1))
+        v = [a, b, c]
+        rng.shuffle(v)
+        return (*v[0], *v[1], *v[2])
+    if k < 0.5:
+        m = 12
+    return tuple(rng.randrange(-m, m + 1) for _ in range(6))
+
+
+def edge_tri(rng):
+    s = rng.choice([-1, 1])
+    t = rng.choice([-1, 1])
+    return tuple((s if i % 2 == 0 else t) * (8192 - rng.randrange(0, 25)) for i in range(6))
+
+
+def rnd_poly(rng, maxn=6, m=30):
+    n = rng.randrange(0, maxn + 1)
+    vs = []
+    for i in range(n):
+        k = rng.random()
+        if vs and k < 0.15:
+            vs.append(vs[-1])                      # repeated vertex
+        elif len(vs) >= 2 and k < 0.3:
+            vs.append(vs[-2])                      # reversal
+        elif k < 0.6:
+            vs.append((rng.randrange(-6, 7), rng.randrange(-6, 7)))
+        else:
+            vs.append((rng.randrange(-m, m + 1), rng.randrange(-m, m + 1)))
+    return vs
+
+
+def flat(vs):
+    return [c for v in vs for c in v]
+
+
+def poly_lists(pts, maxn):
+    for n in range(0, maxn + 1):
+        for vs in itertools.product(pts, repeat=n):
+            yield vs
+
+
+def cases(tier, rng):
+    trip = grid_triples(7)   # ALL ordered vertex triples of the 7x7 grid (117 649), colinear and coincident included
+    for t in trip:
+        yield J('tri_points', *t)
+        yield J('tri_bbox', *t)
+    n = 1500 if tier == 'quick' else 25000
+    for _ in range(n):
+        t = rnd_tri(rng)
+        yield J('tri_points', *t)
+        yield J('tri_bbox', *t)
+    for _ in range(n // 10):
+        t = edge_tri(rng)
+        yield J('tri_points', *t)
+        yield J('tri_bbox', *tuple(rng.randrange(-8192, 8193) for _ in range(6)))
+    # polylines
+    lists = list(poly_lists(PTS3, 4)) + list(poly_lists(PTS4, 6))
+    if tier != 'quick':
+        lists += list(poly_lists(grid_pts(4), 4)) + list(itertools.product(PTS3, repeat=5)) + list(itertools.product(PTS3[:6], repeat=6))
+    for vs in lists:
+        yield J('poly_points', 0, 0, *flat(vs))
+    for vs in poly_lists(PTS3, 3):
+        yield J('poly_bbox', rng.randrange(-3, 4), rng.randrange(-3, 4), *flat(vs))
+    n = 1500 if tier == 'quick' else 25000
+    for _ in range(n):
+        vs = rnd_poly(rng)
+        tr = (rng.randrange(-20, 21), rng.randrange(-20, 21)) if rng.random() < 0.6 else (0, 0)
+        yield J('poly_points', *tr, *flat(vs))
+        yield J('poly_bbox', *tr, *flat(vs))
+        if rng.random() < 0.3:
+            yield J('poly_points_tt', rng.randrange(-9, 10), rng.randrange(-9, 10), *tr, *flat(vs))
+    for _ in range(n // 10):
+        # range edge: large coordinates (polyline points only add/subtract coordinates)
+        vs = [(rng.choice([-1, 1]) * (2 ** 20 - rng.randrange(0, 12)), rng.choice([-1, 1]) * (2 ** 20 - rng.randrange(0, 12))) for _ in range(2)]
+        vs = [vs[0], (vs[0][0] + rng.randrange(-9, 10), vs[0][1] + rng.randrange(-9, 10)), (vs[0][0] + rng.randrange(-9, 10), vs[0][1] + rng.randrange(-9, 10))]
+        yield J('poly_points', rng.randrange(-5, 6), rng.randrange(-5, 6), *flat(vs))
+        yield J('poly_bbox', rng.randrange(-5, 6), rng.randrange(-5, 6), *flat(vs))
+
+
+def search(tier, rng):
+    # p_tri tries all 6 vertex orders of its argument itself: the multisets of the 7x7 grid are ALL ordered triples
+    for t in grid_multisets(7):
+        yield J('p_tri', *t)
+    for t in grid_multisets(6):
+        yield J('p_tri_fill', *t)
+    for t in (grid_triples(6) if tier == 'quick' else grid_triples(7)):
+        yield J('p_tri_outline', *t)
+    n = 2500 if tier == 'quick' else 40000
+    for _ in range(n):
+        t = rnd_tri(rng, 60)
+        yield J('p_tri', *t)
+        if rng.random() < 0.3:
+            yield J('p_tri_fill', *rnd_tri(rng, 40))
+        yield J('p_tri_outline', *rnd_tri(rng, 60))
+    for _ in range(n // 10):
+        yield J('p_tri', *edge_tri(rng))
+        off = (rng.choice([-1, 1]) * rng.randrange(900, 1000), rng.choice([-1, 1]) * rng.randrange(900, 1000))
+        t = rnd_tri(rng, 20)
+        yield J('p_tri_outline', *[c + off[i % 2] for i, c in enumerate(t)])
+    # all pairs of triangles sharing an edge: (a,b,c) and (b,d,a)
+    g = grid_pts(4 if tier == 'quick' else 5)
+    for a in g:
+        for b in g:
+            if a < b:
+                for c in g:
+                    for d in g:
+                        yield J('p_tri_pair', *a, *b, *c, *d)
+    for _ in range(n):
+        t = rnd_tri(rng, 30)
+        d = (rng.randrange(-30, 31), rng.randrange(-30, 31))
+        yield J('p_tri_pair', *t, *d)
+    # polylines
+    lists = list(poly_lists(PTS3, 4)) + list(poly_lists(PTS4, 6))
+    if tier != 'quick':
+        lists += list(itertools.product(PTS3, repeat=5)) + list(itertools.product(PTS3[:6], repeat=6))
+    for vs in lists:
+        yield J('p_poly', 0, 0, *flat(vs))
+    for _ in range(n):
+        vs = rnd_poly(rng)
+        tr = (rng.randrange(-20, 21), rng.randrange(-20, 21)) if rng.random() < 0.5 else (0, 0)
+        yield J('p_poly', *tr, *flat(vs))
